@@ -132,7 +132,13 @@ def check(case, rec=None):
     # DeformationGradientTensor used directly: one object, both frames, all m, both call orders
     ub0 = U0 @ B0
     for order in ("ref_first", "lab_first"):
-        ok, F = guard(finite_strain.DeformationGradientTensor, ubi, ub0)
+        # the two matrices, or (documented) the grain objects that hold them
+        asgrains = order == "lab_first" and not np.allclose(U0, np.eye(3)) or (order == "ref_first" and
+                                                                                abs(ubi[0, 0]) * 1e3 % 2 < 1)
+        if asgrains:
+            ok, F = guard(finite_strain.DeformationGradientTensor, grainmod.grain(ubi.copy()), grainmod.grain(ubi0.copy()))
+        else:
+            ok, F = guard(finite_strain.DeformationGradientTensor, ubi, ub0)
         if not ok:
             fails.append(exc_failure("DeformationGradientTensor", F))
             break
@@ -234,8 +240,22 @@ def check_map(case, rec=None):
         exp_s[idx] = R @ exp_c[idx] @ R.T
         polarR[idx] = R
 
+    decoys = []
+
     def newmap():
-        return tm.TensorMap({"UBI": ubi.copy(), "phase_ids": phase.copy()}, phases=dict(phases))
+        if case["mseed"] % 2:
+            return tm.TensorMap({"UBI": ubi.copy(), "phase_ids": phase.copy()}, phases=dict(phases))
+        # built without the phases argument, reference cells registered afterwards; then a map of another sample
+        # registers other cells under the same ids before any strain of the first one is asked for
+        m = tm.TensorMap({"UBI": ubi.copy(), "phase_ids": phase.copy()})
+        for k_, uc_ in phases.items():
+            m.phases[k_] = uc_
+        other = tm.TensorMap({"UBI": ubi.copy(), "phase_ids": phase.copy()})
+        for k_ in phases:
+            other.phases[k_] = unitcell.unitcell([7.1, 8.3, 9.9, 80.0, 95.0, 107.0], "P")
+            other.phases[k_].name = "decoy"
+        decoys.append(other)
+        return m
 
     def cmp(name, got, exp, bound=None):
         got = np.asarray(got, float)
